@@ -170,13 +170,6 @@ impl ValidationHooks for Md5ValidationHooks {
         Ok(result)
     }
 
-    async fn should_skip_validation(&self, _content_key: &ContentKey, data_size: usize) -> bool {
-        // Skip validation for large files in performance mode
-        // This is configurable behavior - in production you might want different thresholds
-        const MAX_VALIDATION_SIZE: usize = 100 * 1024 * 1024; // 100MB
-        data_size > MAX_VALIDATION_SIZE
-    }
-
     async fn on_validation_failure(
         &self,
         content_key: &ContentKey,
